@@ -15,11 +15,23 @@ type recorder struct {
 	hdr     http.Header
 	commits int
 	code    int
-	sent    [3]string // snapshot of X-A, Content-Type, Location at first commit
+	sent    [4]string // snapshot of X-A, Content-Type, Location, Set-Cookie (all values) at first commit
 	body    []byte
 }
 
-var keys = [3]string{"X-A", "Content-Type", "Location"}
+var keys = [4]string{"X-A", "Content-Type", "Location", "Set-Cookie"}
+
+// headerValue renders all values of a header (Set-Cookie is multi-valued)
+func headerValue(h http.Header, k string) string {
+	out := ""
+	for i, v := range h.Values(k) {
+		if i > 0 {
+			out += "|"
+		}
+		out += v
+	}
+	return out
+}
 
 func (r *recorder) Header() http.Header { return r.hdr }
 func (r *recorder) commit(code int) {
@@ -27,7 +39,7 @@ func (r *recorder) commit(code int) {
 	if r.commits == 1 {
 		r.code = code
 		for i, k := range keys {
-			r.sent[i] = r.hdr.Get(k)
+			r.sent[i] = headerValue(r.hdr, k)
 		}
 	}
 }
@@ -46,8 +58,8 @@ type model struct {
 	statusSet bool
 	committed bool
 	code      int
-	live      [3]string
-	sent      [3]string
+	live      [4]string
+	sent      [4]string
 	body      []byte
 	commits   int
 }
@@ -126,9 +138,13 @@ func apply(b *ohttp.BufferedWriter, m *model, op int, code int, hk, hv int, payl
 	case 9: // writeHeader(code)
 		b.WriteHeader(code)
 		m.commit(code)
-	case 10: // cookie: Set-Cookie via the live header map (Add), visible iff before commit
-		b.SetHeader("X-A", vals[hv]) // stands in for cookie(): same path (Header().Set/Add on the live map)
-		m.live[0] = vals[hv]
+	case 10: // cookie(name=value): appended to the Set-Cookie values of the live header map
+		names := [2]string{"sid", "csrf"}
+		b.SetCookie(&http.Cookie{Name: names[hv], Value: vals[hv]})
+		if m.live[3] != "" {
+			m.live[3] += "|"
+		}
+		m.live[3] += names[hv] + "=" + vals[hv]
 	}
 }
 
@@ -145,7 +161,7 @@ func checkAgainstModel(b *ohttp.BufferedWriter, rec *recorder, m *model, tag str
 		symx.Assert(statusSet == m.statusSet, tag+"status-set-flag")
 	}
 	for i, k := range keys {
-		symx.Assert(rec.hdr.Get(k) == m.live[i], tag+"live-headers")
+		symx.Assert(headerValue(rec.hdr, k) == m.live[i], tag+"live-headers")
 	}
 	symx.Assert(string(rec.body) == string(m.body), tag+"body")
 }
@@ -214,6 +230,9 @@ func H_step() {
 	m.pending, m.statusSet = status, statusSet
 	vals := [3]string{"", "1", "2"}
 	for i, k := range keys {
+		if i == 3 {
+			continue // Set-Cookie starts empty or with one cookie (below)
+		}
 		v := vals[symx.Choose("live"+k, 3)]
 		if v != "" {
 			rec.hdr.Set(k, v)
@@ -224,12 +243,19 @@ func H_step() {
 		// R: committed ⇔ exactly one commit recorded with the status held in b
 		rec.commits, rec.code = 1, status
 		m.committed, m.code, m.commits = true, status, 1
-		for i := range keys {
+		for i := 0; i < 3; i++ {
 			sv := vals[symx.Choose("sent"+keys[i], 3)]
 			rec.sent[i], m.sent[i] = sv, sv
 		}
 		pb := symx.Byte("prebody")
 		rec.body, m.body = []byte{pb}, []byte{pb}
+	}
+	if symx.Choose("precookie", 2) == 1 {
+		rec.hdr.Add("Set-Cookie", "old=1")
+		m.live[3] = "old=1"
+		if hs == 1 {
+			rec.sent[3], m.sent[3] = "old=1", "old=1"
+		}
 	}
 	op := symx.Choose("op", nOps)
 	code := symx.IntRange("code", 100, 999)
